@@ -132,6 +132,54 @@ impl<'de> Deserialize<'de> for AnyDigest {
     }
 }
 
+/// Visitors reached through `deserialize_any` that accept only some kinds of items (the others
+/// hit serde's default `invalid_type` rejection).
+#[derive(Debug)]
+pub struct OnlyInts(pub i128);
+struct OnlyIntsV;
+impl<'de> Visitor<'de> for OnlyIntsV {
+    type Value = OnlyInts;
+    fn expecting(&self, f: &mut std::fmt::Formatter) -> std::fmt::Result {
+        f.write_str("an integer")
+    }
+    fn visit_i64<E: de::Error>(self, v: i64) -> Result<OnlyInts, E> {
+        Ok(OnlyInts(v as i128))
+    }
+    fn visit_u64<E: de::Error>(self, v: u64) -> Result<OnlyInts, E> {
+        Ok(OnlyInts(v as i128))
+    }
+}
+impl<'de> Deserialize<'de> for OnlyInts {
+    fn deserialize<D: de::Deserializer<'de>>(d: D) -> Result<Self, D::Error> {
+        d.deserialize_any(OnlyIntsV)
+    }
+}
+
+#[derive(Debug)]
+pub struct OnlyText(pub u64);
+struct OnlyTextV;
+impl<'de> Visitor<'de> for OnlyTextV {
+    type Value = OnlyText;
+    fn expecting(&self, f: &mut std::fmt::Formatter) -> std::fmt::Result {
+        f.write_str("text or a sequence of text")
+    }
+    fn visit_str<E: de::Error>(self, v: &str) -> Result<OnlyText, E> {
+        Ok(OnlyText(mix(6, v.as_bytes())))
+    }
+    fn visit_seq<A: SeqAccess<'de>>(self, mut a: A) -> Result<OnlyText, A::Error> {
+        let mut h = Fnv::new();
+        while let Some(x) = a.next_element::<OnlyText>()? {
+            h.u64(x.0)
+        }
+        Ok(OnlyText(h.0))
+    }
+}
+impl<'de> Deserialize<'de> for OnlyText {
+    fn deserialize<D: de::Deserializer<'de>>(d: D) -> Result<Self, D::Error> {
+        d.deserialize_any(OnlyTextV)
+    }
+}
+
 /// Serialises through `collect_str` (documented: refused without alloc).  The Display impl
 /// produces ASCII and non-ASCII text through both `write_str` and `write_char`.
 pub struct ViaCollectStr(pub u32);
@@ -286,6 +334,7 @@ pub fn register(v: &mut Vec<(&'static str, Op)>) {
         "serde.SS" => SS, "serde.SN" => SN, "serde.ST" => ST, "serde.SU" => SU, "serde.SE" => SE, "serde.SOuter" => SOuter,
         "serde.Option<SE>" => Option<SE>, "serde.(SN,SE)" => (SN, SE),
     );
+    styped_only!(v; "serde.any.only-ints" => OnlyInts, "serde.any.only-text" => OnlyText, "serde.any.(only-ints,u8)" => (OnlyInts, u8));
     styped_only!(v; "serde.any" => AnyDigest, "serde.ignored" => IgnoredAny, "serde.(ignored,u8)" => (IgnoredAny, u8));
     v.push(("serde.ser.collect_str", (|b: &[u8]| {
         let n = b.iter().take(4).fold(0u32, |a, x| (a << 8) | *x as u32);
